@@ -898,3 +898,24 @@ package restful
 //@ callsite chansend released: heldBy(arg0) == 1 && arg0 == r
 //@ modifies nothing
 //@ nopanic
+
+// ---------------------------------------------------------------------------
+// Accept ranking (C05)
+
+// Totality only (C02/C05): the ranking contract of insertMime (three nested
+// appends over float keys) is not discharged by the solvers within the limit
+// and is therefore not claimed; see DESIGN.md.
+//@ func insertMime
+//@ props C02 C05
+//@ ensures len: len(result) == len(l) + 1
+//@ ensures owned: fresh(result) || sameArray(result, l)
+//@ modifies elems(l)
+//@ nopanic
+//@ loop 0 invariant true
+
+//@ func sortedMimes
+//@ props C02 C05
+//@ nopanic
+//@ modifies nothing
+//@ opt opaque model_splitPart model_splitCount model_strings_Trim
+//@ loop 0 invariant owned: sorted == nil || fresh(sorted)
